@@ -90,6 +90,9 @@ def step (d : DSt) (toks : List String) : DSt × String :=
         | none => toString id ++ ":missing"
       ((s, m'), if outs.isEmpty then "-" else " ".intercalate outs)
     | _, _ => (d, "bad-op")
+  | "looptrace" :: rest =>
+    -- the real event loop end to end on a virtual clock: monitor only, constant reply, no model state
+    if looptraceWellFormed rest then (d, "looptrace-ok") else (d, "bad-op")
   | _ => (d, "bad-op")
 
 end Srtla.Drv.LinkCc
